@@ -333,7 +333,7 @@ Definition tr_citem (f : flags) (it : citem) : list item2 :=
    emitted in top-level mode.  (fixes/C21-empty-split-class.patch: when NO element stays inside
    the brackets the empty `[]` is not written.) *)
 Definition split_alt (f : flags) (it : citem) : re2 :=
-  match it with CIAtom a => tr_atom_top f a | _ => R2Err end.
+  match it with CIAtom (APre neg p) => tr_atom_top f (APre neg p) | _ => R2Err end.
 
 Fixpoint alts (l : list re2) : re2 :=
   match l with
@@ -494,3 +494,14 @@ Fixpoint strip_ws (r : re) : re :=
   end.
 
 Definition set_x (f : flags) (b : bool) : flags := mkFlags (fi f) (fm f) (fs f) (fU f) b (fa f).
+
+(* a whitespace CharNode occurs outside character classes *)
+Fixpoint has_ws (r : re) : bool :=
+  match r with
+  | RAtom (AChar c) => is_space c
+  | RConcat l => (fix go (l : list re) : bool := match l with [] => false | x :: t => has_ws x || go t end) l
+  | RUnion a b => has_ws a || has_ws b
+  | RGroup _ body => match body with Some b => has_ws b | None => false end
+  | RQuant _ _ r0 => has_ws r0
+  | _ => false
+  end.
